@@ -117,6 +117,7 @@ const (
 	vIdx           // a look-ahead index: an int used as Peek/Move argument whose relation to the terminator is tracked (eng_idx.go)
 	vNegPos        // -Pos(): minus the selection length at the time it was taken (lower bound for backward look-ahead indices)
 	vStrSet        // a string that is one of the constant strings of a package-level table (never reassigned: R-GLOBALS)
+	vTabInt        // table[c] & mask for a package-level [256]integer literal indexed by a byte value (character-class bits)
 )
 
 type AbsVal struct {
@@ -174,6 +175,9 @@ type AbsVal struct {
 	idx ssa.Value
 	// vStrSet
 	strs []string
+	// vTabInt (tabX is the index value)
+	itable *[256]int64
+	mask   int64
 }
 
 type absArr struct{ elems []AbsVal }
@@ -303,6 +307,8 @@ func eqAbs(a, b AbsVal) bool {
 		return a.ilo == b.ilo && a.ihi == b.ihi && a.safe == b.safe && a.coverOK == b.coverOK && (!a.coverOK || a.cover == b.cover) && a.back == b.back
 	case vNegPos:
 		return a.fresh == b.fresh
+	case vTabInt:
+		return a.itable == b.itable && a.mask == b.mask && a.tabX == b.tabX
 	case vStrSet:
 		if len(a.strs) != len(b.strs) {
 			return false
@@ -378,6 +384,9 @@ func joinAbs(a, b AbsVal, wl int) AbsVal {
 		return u
 	case vByte:
 		out := AbsVal{k: vByte, set: a.set.or(b.set)}
+		if hardWiden && out.set != a.set {
+			out.set = bsTop // a byte set that still grows after many visits: give up on it (finite but slow chains)
+		}
 		if a.linked && b.linked && a.coord == b.coord {
 			out.linked, out.coord = true, a.coord
 		}
@@ -554,6 +563,7 @@ type State struct {
 	decL, decD int             // how often Lmin / dispLo decreased at joins (widening trigger)
 	moves      int             // number of cursor-changing operations on this path (capped)
 	stale      int             // number of in-place rewrites of consumed bytes so far
+	wrote      uint8           // kinds of in-place rewrites on this path: wroteFold | wroteSpace | wroteOther
 	dispLo     int             // net displacement of pos since the entry of the analysed entry point
 	dispHi     int
 	lex        ByteSet // union of possible values of all bytes moved over since the last Shift/Skip
@@ -572,6 +582,12 @@ type State struct {
 	trace []string
 	dead  bool
 }
+
+const (
+	wroteFold  uint8 = 1 << iota // parse.ToLower applied to a slice of the input
+	wroteSpace                   // a tab / newline / carriage return of the input replaced by a space
+	wroteOther                   // any other store into the input
+)
 
 func newState() *State {
 	return &State{Lmax: inf, dispLo: 0, dispHi: 0, bytes: map[int]ByteSet{}, atLen: map[string]bool{}, atomPos: map[string]bool{},
@@ -959,7 +975,7 @@ func (s *State) key(interesting []ssa.Value) string {
 func (s *State) subsumes(o *State) bool {
 	if o.E < s.E || (s.atEOF && (!o.atEOF || o.E != s.E)) || o.P < s.P || o.Lmin < s.Lmin || o.Lmax > s.Lmax ||
 		o.dispLo < s.dispLo || o.dispHi > s.dispHi || s.epoch != o.epoch || (s.lexKnown && !o.lexKnown) || (s.lastShift && !o.lastShift) ||
-		o.shifts < s.shifts || o.skips > s.skips || s.lex.or(o.lex) != s.lex {
+		o.shifts < s.shifts || o.skips > s.skips || s.lex.or(o.lex) != s.lex || o.wrote&^s.wrote != 0 {
 		return false
 	}
 	for k, v := range s.bytes {
@@ -1079,6 +1095,9 @@ func (s *State) joinInto(o *State, wl int) bool {
 		}
 		u := v.or(ov)
 		if u != v {
+			if hardWiden {
+				u = bsTop
+			}
 			if u.isTop() {
 				delete(s.bytes, k)
 			} else {
@@ -1120,6 +1139,10 @@ func (s *State) joinInto(o *State, wl int) bool {
 	}
 	if o.stale > s.stale {
 		s.stale = o.stale
+	}
+	if o.wrote&^s.wrote != 0 {
+		s.wrote |= o.wrote
+		changed = true
 	}
 	if o.moves > s.moves {
 		s.moves = o.moves
